@@ -73,6 +73,7 @@ func VerifyFunc(w *World, rel string, c *Contract, fn *ssa.Function) *FuncReport
 	x.pkg = w.typesPkg(c.Pkg)
 	x.fnName = relOf(c.Pkg) + "." + c.Key
 	x.overflow = c.Overflow
+	x.prune = c.Prune
 	x.closureByTerm = map[string]*FnVal{}
 	x.isCancel = map[string]bool{}
 	x.libUsed = map[string]bool{}
@@ -201,6 +202,11 @@ func VerifyFunc(w *World, rel string, c *Contract, fn *ssa.Function) *FuncReport
 	rep.Obls = x.obls
 	for _, ob := range rep.Obls {
 		ob.Query = x.query(ob, true)
+		if ob.PrePC != nil {
+			pre := *ob
+			pre.PC = ob.PrePC
+			ob.PreQuery = x.query(&pre, false)
+		}
 	}
 	rep.Errors = x.errors
 	rep.Warnings = x.warnings
@@ -395,6 +401,13 @@ func Discharge(obls []*Obligation, timeoutS int, confirm bool, workers int) {
 					if r.Status != "unsat" {
 						r.Output = "reach: " + r.Status
 						r.Status = "sat"
+					} else if ob.PreQuery != "" {
+						// unreachable after the call: vacuity only if the path was alive before it
+						r0 := runOne(solverSpecs[0], "(set-option :smt.mbqi false)\n"+ob.PreQuery, 3)
+						if r0.Status == "unsat" {
+							r.Output = "reach: path already dead before the call"
+							r.Status = "sat"
+						}
 					}
 					ob.Result = r
 					continue
